@@ -54,3 +54,7 @@ add("C19", "rapid-generated multi-file specs with tokens/externals/modes/@emit; 
     "Generated-input search in layer B (real generator, generated text parsed with go/types and the table decoder) plus a compiled sample calling _TokenToString on every value in [-1,n+1].",
     "Declaration order is known by construction of the rendered files; files are read in file-name order.",
     "DESIGN.md §3 C19")
+add("C17", "rapid-generated well-formed multi-file specs and single-fault variants (38 fault kinds, any placement); verdict and diagnostic position vs. the span of the injected declaration known from rendering",
+    "Generated-input search: thousands of specs per run, every fault kind required to occur; accepted/rejected verdict checked in both directions and the diagnostic must point into the faulty declaration (file and line span), 5% also through codegen.Generate.",
+    "For duplicate names either declaration is an acceptable position; info and error lines share one format.",
+    "DESIGN.md §3 C17")
